@@ -150,6 +150,19 @@ def configured(ck):
             if not ok:
                 fails.append({"obligation": "bounded.configured.power", "clause": "F(10^log_e_nu) == u, log_e_nu inside the bounds, norm x weight sum == 1 for an index given as %s" % type(idx).__name__,
                               "input": {"index": repr(idx), "lower": lo, "upper": hi, "u": u.tolist()}, "observed": {"log_e_nu": L.tolist(), "F": np.asarray(F, float).tolist(), "norm*sum": float(norm) * float(wsum)}})
+    # no events / one event: still a triple, with an array of that many energies
+    for nev0 in (0, 1):
+        for idx0 in (2.0, 1.0):
+            n += 1
+            try:
+                cfg0 = NssConfig()
+                cfg0.simulation.spectrum = Simulation.PowerSpectrum(index=idx0, lower_bound=7.0, upper_bound=10.0)
+                with harness.patched_rng([np.full(nev0, 0.5)]), np.errstate(all="ignore"):
+                    L0, norm0, w0 = Spectra(cfg0)(nev0)
+                if np.shape(L0) != (nev0,) or abs(float(norm0) * float(w0) - 1.0) > 1e-9:
+                    fails.append({"obligation": "bounded.configured.power", "clause": "N = %d events: an array of N energies and the normalisation pair" % nev0, "input": {"N": nev0, "index": idx0}, "observed": {"shape": list(np.shape(L0))}})
+            except Exception as ex:
+                fails.append({"obligation": "bounded.configured.power", "clause": "N = %d events is evaluated" % nev0, "input": {"N": nev0, "index": idx0}, "observed": "raised %r" % ex})
     # the spectrum is read from the configuration at every call: a configuration whose spectrum is replaced after the sampler was built
     cfg = NssConfig()
     sp_ = Spectra(cfg)
